@@ -167,7 +167,7 @@ def main():
             if c.extern:
                 assumed_contracts.add("%s%s" % (c.target, (" -- " + c.trusted_reason) if c.trusted_reason else ""))
         texts = [o["smt2"] for o in packed]
-        results = solve.discharge_texts(texts, timeout_s=timeout_s)
+        results = solve.discharge_texts(texts, timeout_s=timeout_s, cores=[o.get("core") for o in packed])
         for o, r, txt in zip(packed, results, texts):
             n_obl += 1
             solver_time += r["time"]
